@@ -63,12 +63,19 @@ Theorem C02_lzx_block_loop_in_bounds : forall rule hint fuel todo s i r i', Lzx.
 Proof. exact LzxSafe.todo_loop_never_oob. Qed.
 Print Assumptions C02_lzx_block_loop_in_bounds.
 (* whole streams from lzxd_init, every legal window size, every reset interval, DELTA or not, any reference data, any input, any
-   sequence of requests - while the decoder does not know the output length (lzx->length = 0: CAB folders before their last block;
-   with a known length the last frame is short, which this theorem does not cover: see DESIGN.md) *)
+   sequence of requests - while the decoder does not know the output length (lzx->length = 0: CAB folders before their last block) *)
 Theorem C02_lzx_never_out_of_bounds : forall wb ri delta ref inp reqs sts out, 15 <= wb <= 25 ->
   Lzx.lzx_run wb ri 0 delta ref inp reqs = (sts, out) -> Forall (fun st => st <> Lzx.OOB) sts.
 Proof. exact LzxSafe.lzx_run_safe. Qed.
 Print Assumptions C02_lzx_never_out_of_bounds.
+(* the same with ANY output length L known to the decoder from the start (CHM, OAB and LZX DELTA set it at initialisation; the last
+   frame is then short, and the argument needs the bookkeeping between frame counter, bytes decoded, bytes delivered and the
+   requested total): every window size, every sequence of requests whose sizes stay below 2^46 in total *)
+Theorem C02_lzx_never_out_of_bounds_known_length : forall wb ri L delta ref inp reqs sts out, 15 <= wb <= 25 ->
+  LzxSafe.sumN reqs + 32768 * N.of_nat (length reqs) < 70368744177664 ->
+  Lzx.lzx_run wb ri L delta ref inp reqs = (sts, out) -> Forall (fun st => st <> Lzx.OOB) sts.
+Proof. exact LzxSafe.lzx_run_safeL. Qed.
+Print Assumptions C02_lzx_never_out_of_bounds_known_length.
 (* the ghost checks bite: from a state outside the invariant (window_posn = window_size at the start of a frame) the same stream
    makes the model go out of bounds; from lzxd_init it decodes *)
 Example C02_lzx_ghost_checks_bite :
